@@ -128,6 +128,24 @@ impl Driver for C13 {
             }
             pos = sel;
         }
+        // bytes of the magic itself right in front of (or instead of) the real
+        // occurrence: d6 / d6 50 / d6 50 52 and single magic bytes
+        for &i in &pos {
+            for k in 1..=3usize {
+                for pre in [&[0xd6u8][..], &[0xd6, 0x50][..], &[0xd6, 0x50, 0x52][..], &[0xe8][..], &[0x52, 0xe8][..]] {
+                    if i < k || pre.len() > k || cfg!(miri) && !ctx.rng.chance(1, 20) {
+                        continue;
+                    }
+                    let mut b = base.clone();
+                    put_magic(&mut b, i);
+                    if i + 12 <= len {
+                        put32(&mut b, i + 8, (len - i) as u32 & !7);
+                    }
+                    b[i - k..i - k + pre.len()].copy_from_slice(pre);
+                    self.one(ctx, &b, "near-magic-prefix");
+                }
+            }
+        }
         for &i in &pos {
             let rem = len - i;
             let ls: Vec<u32> = vec![0, 8, 16, (rem as u32).wrapping_sub(1), rem as u32, rem as u32 + 1, 1 << 31, u32::MAX, (rem as u32) & !7];
